@@ -165,10 +165,14 @@ class _TracingReader(object):
         if self._eio_at is not None:
             want_end = pos + n if (n is not None and n >= 0) else float("inf")
             if pos <= self._eio_at < max(want_end, pos + 1):
+                at = self._eio_at
                 self._eio_at = None
                 self._fs.fired("F6.eio_at_offset")
                 self._fs.trace.append(("read_eio", self._p, pos, n))
-                raise OSError(errno.EIO, "Input/output error (injected)", self._p)
+                # the failure is one-off (a later read of the same file works) and comes as EIO or - every other time - as
+                # ESTALE, the "transient" error of network file systems: either way the digest of that file is not known
+                code = errno.ESTALE if at % 2 else errno.EIO
+                raise OSError(code, os.strerror(code) + " (injected)", self._p)
         if self._raw and n is not None and n > 1:
             cap = (65536, n, 100000, 1, 524288, 3)[self._nreads % 6]
             self._nreads += 1
